@@ -318,4 +318,4 @@ Count: 5
 
 #[cfg(all(transparencies_stretto_verif, any(kani, test)))]
 #[path = "/verif/harness/h_histogram.rs"]
-mod verif_harness;
+pub(crate) mod verif_harness;
